@@ -103,7 +103,8 @@ func c09Faults() []faultSpec {
 	for _, k := range []sim.FaultKind{sim.FaultError, sim.FaultStall, sim.FaultOutage} {
 		fs = append(fs, faultSpec{1, k, "prepare.getPayload", "prepare-fails"})
 	}
-	for _, k := range []sim.FaultKind{sim.FaultError, sim.FaultInvalid, sim.FaultSyncing, sim.FaultAccepted, sim.FaultOutage} {
+	// a call answered (with an error) only after 1.5 s is an engine that errors, wherever it happens
+	for _, k := range []sim.FaultKind{sim.FaultError, sim.FaultInvalid, sim.FaultSyncing, sim.FaultAccepted, sim.FaultOutage, sim.FaultStall} {
 		fs = append(fs, faultSpec{2, k, "process.newPayload", "process-rejects"})
 	}
 	for _, c := range []int{3, 4} {
@@ -113,7 +114,7 @@ func c09Faults() []faultSpec {
 		}
 		// an engine that goes away without answering (connection cut, nothing listening for 0.9 s) is an
 		// engine that errors: the block must not be committed
-		fs = append(fs, faultSpec{c, sim.FaultOutage, ph, "finalize-errors"})
+		fs = append(fs, faultSpec{c, sim.FaultOutage, ph, "finalize-errors"}, faultSpec{c, sim.FaultStall, ph, "finalize-errors"})
 		fs = append(fs, faultSpec{c, sim.FaultError, ph, "finalize-errors"}, faultSpec{c, sim.FaultInvalid, ph, "finalize-errors"},
 			faultSpec{c, sim.FaultSyncing, ph, "tolerated"}, faultSpec{c, sim.FaultAccepted, ph, "tolerated"})
 	}
